@@ -1062,7 +1062,36 @@ func (f *FuncCtx) loopCommon(label string, env *Env, fl *flow, nodes []ast.Node,
 		bind(it)
 	}
 	inner := &flow{outer: fl, label: label, isLoop: true}
+	retsBefore := len(fr.rets)
 	end := f.block(body.List, it, inner)
+	if c != nil && len(c.LoopRet[ord]) > 0 {
+		// loop N return e: every return statement executed inside the loop body satisfies e (rK = K-th returned value)
+		for k, cl := range c.LoopRet[ord] {
+			for j := retsBefore; j < len(fr.rets); j++ {
+				re := fr.rets[j]
+				if re.dead {
+					continue
+				}
+				var results []Val
+				for i := 0; i < fr.sig.Results().Len(); i++ {
+					if v, ok := re.names[fmt.Sprintf("$ret%d.%d", fr.depth, i)]; ok {
+						results = append(results, v)
+					} else {
+						results = append(results, Val{T: f.S.Zero(fr.sig.Results().At(i).Type()), Typ: fr.sig.Results().At(i).Type()})
+					}
+				}
+				var resNames []string
+				for _, o := range fr.results {
+					resNames = append(resNames, o.Name())
+				}
+				rsc := sc(re)
+				rsc.results = results
+				rsc.resNames = resNames
+				g := f.evalClause(cl, re, rsc)
+				f.obligeIn(fmt.Sprintf("%s.return#%d.%d", prefix, j-retsBefore+1, k+1), "loop.return", re, g, cl.Text, fmt.Sprintf("%s:%d", shortPath(cl.File), cl.Line))
+			}
+		}
+	}
 	back := f.merge(append([]*Env{end}, inner.cont...))
 	if !back.dead {
 		if post != nil {
